@@ -1,5 +1,6 @@
 #!/bin/bash
-# usage: run_all.sh <tier> <seed> [ids...]  -- runs the checks one after another, prints the summary lines
+# usage: run_all.sh <tier> <seed> [ids...]  -- runs the checks one after another, prints the summary lines;
+# its log directory is private to this invocation and removed at the end (KEEP_LOGS=1 keeps it)
 tier=${1:-quick}; seed=${2:-0}; shift 2
 ids=${@:-C01 C02 C03 C04 C05 C06 C07 C08 C09 C10 C11 C12 C13 C14 C15 C16 C17 C18 C19 C20}
 cd "$(dirname "$0")/../.."
@@ -10,5 +11,6 @@ for p in $ids; do
   rc=$?
   echo "$p rc=$rc $(( $(date +%s) - s ))s $(grep -v KNOWN $logd/$p.log | tail -1)"
   grep '^VIOLATION' $logd/$p.log
+  if [ $rc -ne 0 ]; then tail -15 $logd/$p.log; fi
 done
-echo "logs in $logd"
+if [ -n "$KEEP_LOGS" ]; then echo "logs in $logd"; else rm -rf "$logd"; fi
